@@ -31,6 +31,8 @@ WORLDS = [
     # labels only at coordinate 0 (an already-trimmed one-label molecule; coincident labels at 0); a label exactly at ContigLength
     [(4, 30.0, [0.0]), (6, 40.0, [0.0, 0.0]), (9, 25.0, [])],
     [(5, 70.0, [0.0, 70.0]), (8, 60.4, [60.0])],
+    # a label exactly on a fractional ContigLength (and a molecule whose only label is there)
+    [(21, 7500.6, [0.0, 2000.3, 7500.6]), (22, 640.9, [640.9])],
     # two colours interleaved along the molecule
     [(2, 90.5, [(10.0, 2), (20.5, 1), (30.0, 2), (40.0, 1)]), (3, 50.0, [(5.5, 2), (7.0, 1)])],
     # molecule ids that do not survive a round trip through a double
@@ -158,10 +160,11 @@ def check_reuse(wa, wb, calls, acc):
     d = core.scratch_dir()
     paths = [os.path.join(d, 'reuse-a.cmap'), os.path.join(d, 'reuse-b.cmap')]
     molsets = [WORLDS[wa], WORLDS[wb]]
-    for p, mols in zip(paths, molsets):
+    for fi, (p, mols) in enumerate(zip(paths, molsets)):
         plain = [(m, l, [split(x)[0] for x in pp]) for m, l, pp in mols]
         with open(p, 'w') as f:
-            f.write(cmaptext.text(plain))
+            # the two files have DIFFERENT column layouts (the second has the annotation column in front of LabelChannel / Position)
+            f.write(cmaptext.text(plain) if fi == 0 else NOTE_HEADER + ''.join(note_rows(plain)))
     found = []
     case = dict(kind='reuse', worlds=[wa, wb], calls=[list(c) for c in calls])
     rd = CmapReader()
